@@ -631,8 +631,13 @@ class Interp:
         return list(v)
 
     def e_Set(self, e, fr):
-        vals = [self.eval(x, fr) for x in e.elts]
-        return SSet({v: True for v in vals})
+        out = SSet({})
+        for x in e.elts:
+            if isinstance(x, ast.Starred):  # {a, *others}: union with the (possibly guarded) collection
+                out = out.union(SSet.of(self.eval(x.value, fr)))
+            else:
+                out = out.union(SSet({self.eval(x, fr): True}))
+        return out
 
     def e_Dict(self, e, fr):
         return {self.eval(k, fr): self.eval(v, fr) for k, v in zip(e.keys, e.values)}
